@@ -583,4 +583,53 @@ def c15_g(ctx: Ctx):
     return common.lazy_accessor_init(ctx, "C15-g")
 
 
-RULES = [c15_a, c15_b, c15_c, c15_d, c15_e, c15_f, c15_g, c15_h]
+@rule("C15-i")
+def c15_i(ctx: Ctx):
+    """Reading job.document / job.stores in a dry run cannot write even when the job directory exists without a state point file: init(validate_statepoint=False)
+    - what the lazy accessors call - returns as soon as the directory exists; every path of Job.init to a write either has validate_statepoint true or has
+    seen os.path.isdir(self.path) fail."""
+    R = "C15-i"
+    f = ctx.fn("signac.job:Job.init")
+    cfg = ctx.cfg(f)
+    out = []
+    k = f.qual + "|no-write-without-validation-when-directory-exists"
+    vp = "validate_statepoint"
+    if vp not in f.params:
+        return [ctx.inc(R, f, f.node, "Job.init has no validate_statepoint parameter", construct=k)]
+    writes = set()
+    for n in cfg.stmt_nodes():
+        if n.kind != "stmt":
+            continue
+        for c in walk_no_nested(n.ast):
+            if isinstance(c, ast.Call):
+                e = common.ext_name(ctx, f, c) or ""
+                tq = common.targets_of(ctx, f, c)
+                if e in ("os.makedirs", "os.mkdir") or any(t.endswith(":_mkdir_p") or t.endswith("_StatePointDict.save") for t in tq) or \
+                        (isinstance(c.func, ast.Attribute) and c.func.attr == "save" and "statepoint" in canon(c.func.value)):
+                    writes.add(n.id)
+    if not writes:
+        return [ctx.inc(R, f, f.node, "no directory creation / state point save found in Job.init", construct=k)]
+    bad = None
+    total = 0
+    for w in sorted(writes):
+        paths, trunc = cfg.paths_to(w, kinds="nx")
+        if trunc:
+            return [ctx.inc(R, f, cfg.nodes[w].ast, "path enumeration truncated", construct=k)]
+        for path, facts in paths:
+            total += 1
+            facts = common.expand_facts(ctx, f, facts)
+            if (vp, True) in facts:
+                continue
+            if any((not pol) and t.replace(" ", "") in ("os.path.isdir(self.path)", "os.path.exists(self.path)", "os.path.lexists(self.path)") for (t, pol) in facts):
+                continue
+            bad = (w, path)
+    if bad:
+        out.append(ctx.viol(R, f, cfg.nodes[bad[0]].ast, "Job.init can reach the directory creation / state point save with validate_statepoint=False without having tested that the job "
+                            "directory is absent: the lazy accessors (job.document, job.stores - evaluated by every sync, also a dry run) then write signac_statepoint.json into a job "
+                            "directory that exists without one", witness=cfg.describe_path(bad[1]), construct=k))
+    else:
+        out.append(ctx.ok(R, f, f.node, f"all {total} paths to a write in Job.init have validate_statepoint true or saw os.path.isdir(self.path) fail", construct=k))
+    return out
+
+
+RULES = [c15_a, c15_b, c15_c, c15_d, c15_e, c15_f, c15_g, c15_h, c15_i]
